@@ -124,6 +124,18 @@ class GenX(PartGenerator):
             part_name, [(Piece if (sub + i) % 2 else Part)(f'{part_name}_{i}', self.value, self.quality) for i in range(n)])
 
 
+class Name(str):
+    """a name that knows which object of the scenario it was given to (names need not be unique: two distinct
+    devices or work-order targets may carry EQUAL names, also the empty one; the library hands the name object on
+    into its records, where the harness reads the owner back from it)"""
+
+    def __new__(cls, text, dev=None, tgt=None):
+        o = str.__new__(cls, text)
+        o._vdev = dev
+        o._vtgt = tgt
+        return o
+
+
 class TargetMixin:
     """Work-order parameters from the scenario's target table; hooks are logged."""
     _vrunner = None
@@ -162,7 +174,8 @@ class FakeTarget(TargetMixin, Maintainable):
     def __init__(self, runner, tgt, start, end):
         self._vrunner = runner
         self._vtgt = tgt
-        self.name = f'T{tgt}'
+        # distinct targets carry EQUAL names in two of three scenarios ('T' / the empty string)
+        self.name = Name([f'T{tgt}', 'T', ''][runner.scen_no % 3], tgt=tgt)
         self._start, self._end = start, end
 
     def start_work(self, tag):
@@ -414,6 +427,8 @@ class FullRunner(Runner):
                 obj = self.devs[int(dev)]
                 obj._vrunner = self
                 obj._vtgt = tgt
+                if isinstance(getattr(obj, 'name', None), Name):
+                    obj.name._vtgt = tgt
             else:
                 obj = FakeTarget(self, tgt, start, end)
             self.targets.append({'obj': obj, 'params': params})
@@ -535,7 +550,8 @@ class FullRunner(Runner):
 
     def make_dev(self, kind, kv):
         i = len(self.devs)
-        name = f'D{i}'
+        # distinct devices carry EQUAL names in two of five scenarios
+        name = Name({1: 'D', 3: ''}.get(self.scen_no % 5, f'D{i}'), dev=i)
         ups = [self.devs[int(u)] for u in plist(kv.get('up', '-'))]
         cyc = int(kv.get('cyc', '0')) / self.tick
         value = self.N(kv.get('value', '0'))
@@ -741,33 +757,40 @@ class FullRunner(Runner):
         if label == 'resource_update':
             return f'rec resource_update {self.rid(sub)} {ticks(dp[0])} {ival(dp[1])} {ival(dp[2])}'
         names = self.name_map()
+        if label in ('level', 'received_part', 'produced_part', 'device_failure', 'supplied_new_part'):
+            dev = self.owner_of(sub, '_vdev', [getattr(d, 'name', None) for d in self.devs])
         if label == 'level':
-            return f'rec level {names.get(sub, "?")} {ticks(dp[0])} {ival(dp[1])}'
+            return f'rec level {dev} {ticks(dp[0])} {ival(dp[1])}'
         if label in ('received_part', 'produced_part'):
-            return f'rec {label} {names.get(sub, "?")} {ticks(dp[0])} {self.pid.get(dp[1], "?")} {ival(dp[2])} {ival(dp[3])}'
+            return f'rec {label} {dev} {ticks(dp[0])} {self.pid.get(dp[1], "?")} {ival(dp[2])} {ival(dp[3])}'
         if label == 'device_failure':
-            return f'rec device_failure {names.get(sub, "?")} {ticks(dp[0])} {self.pid.get(dp[1], "?") if dp[1] is not None else "-"}'
+            return f'rec device_failure {dev} {ticks(dp[0])} {self.pid.get(dp[1], "?") if dp[1] is not None else "-"}'
         if label == 'supplied_new_part':
-            return f'rec supplied_new_part {names.get(sub, "?")} {ticks(dp[0])} {self.pid.get(dp[1], "?")}'
+            return f'rec supplied_new_part {dev} {ticks(dp[0])} {self.pid.get(dp[1], "?")}'
         if label in ('enter_queue', 'start_work_order', 'finish_work_order'):
-            tn = self.tname_map()
-            return f'rec {label} {names.get(sub, "?")} {ticks(dp[0])} {tn.get(dp[1], "?")} {ival(dp[2])} {ival(dp[3])}'
+            tgt = self.owner_of(dp[1], '_vtgt', [getattr(t['obj'], 'name', 'N/A') for t in self.targets])
+            return f'rec {label} {names.get(sub, "?")} {ticks(dp[0])} {tgt} {ival(dp[2])} {ival(dp[3])}'
         if label == 'schedule_update':
             return f'rec schedule_update {names.get(sub, "?")} {ticks(dp[0])} {sstate(dp[1])}'
         return f'rec {label} ? {dp}'
 
+    @staticmethod
+    def owner_of(name, attr, all_names):
+        """index of the object a name in a record belongs to: read from the name object itself (see Name); a library
+        that hands on a copy of the text is understood as long as the text is unambiguous"""
+        k = getattr(name, attr, None)
+        if k is not None:
+            return k
+        hits = [i for i, n in enumerate(all_names) if n == name]
+        return hits[0] if len(hits) == 1 else '?'
+
     def name_map(self):
         m = {}
-        for i, d in enumerate(self.devs):
-            m[d.name] = i
         for i, d in enumerate(self.maints):
             m[d.name] = i
         for i, d in enumerate(self.scheds):
             m[d.name] = i
         return m
-
-    def tname_map(self):
-        return {getattr(t['obj'], 'name', 'N/A'): i for i, t in enumerate(self.targets)}
 
     def kind_of(self, d):
         for cls, k in ((Source, 'source'), (Sink, 'sink'), (Buffer, 'buffer'), (PartBatcher, 'batcher'),
